@@ -198,7 +198,7 @@ let runs args = match args with
                       else "(done false " ^ pn s.pos ^ ")"
           | OutOfFuel -> "fuel"
           | Stuck n -> "(stuck " ^ pn n ^ ")") in
-        let spec = peg g ign t rx fuel [] body p in
+        let spec = peg g fs ign t rx fuel [] body p in
         let sp = (match spec with
           | Fuel -> "fuel" | Raise -> "raise" | Fails -> "fails"
           | Match (v, q) -> "(match " ^ pv v ^ " " ^ pn q ^ ")") in
